@@ -21,27 +21,43 @@ RULE = ('A case is 1-3 partitions per cell (cpu/memory/disk and 0-3 per-trait '
         'is aimed by the generator at the current head-room of the partition '
         'and of the limited traits it carries (exact fit, one unit over, '
         'within 10 %, under, random, zero); updates re-send the partition and '
-        'omit traits as the CLI does, or move partition / replace traits. '
+        'omit traits as the CLI does, or move partition / replace traits, or '
+        're-send the stored amounts verbatim with other traits; the '
+        'partition key is omitted, JSON null (~1 request in 10) or a name '
+        '(existing or not). '
         'Non-trivial = some create/update step carries a limited trait that '
         'another reservation of the same cell+partition also carries and asks '
         'for an amount within 10 % of that limit from the free amount. '
         'distinct = canonical JSON of the case.')
 ASSUMPTIONS = [
-    'the LDAP server is replaced by an in-memory directory (exact-match '
-    'equality filters, no replication delay); the object layer '
-    '(_ldap.CellAllocation/_ldap.Partition), WrappedAdmin exception '
-    'translation and the API are the real code',
+    'the LDAP server is replaced by an in-memory stand-in for the '
+    'ldap3.Connection (pbt/reservation.FakeConnection: results in .result, '
+    'never raises, BASE/SUBTREE, (&(a=b)(c=*)) filters, a clause on an '
+    'absent attribute is false, lazy paged generator - checked against '
+    "ldap3's own MOCK_SYNC strategy); everything above it is the real code: "
+    'context.GLOBAL.admin -> AdminLdapBackend -> WrappedAdmin -> '
+    '_ldap.Admin -> _ldap.CellAllocation/_ldap.Partition -> api.allocation',
     'decorator.getargspec (removed in decorator 5) is restored as '
     'inspect.getfullargspec so that the real schema decorator validates '
-    'every request; only schema-valid requests are generated',
-    'partition is a string when present (never JSON null); trait lists hold '
-    'no duplicates (LDAP attribute values are sets)',
+    'every request; only schema-valid requests are generated (partition '
+    'omitted / null / named; traits omitted / [] / list; rank, '
+    'rank_adjustment, max_utilization optional)',
+    'a reservation is judged in the partition and with the traits the system '
+    'reports when it is listed (null partition reads back as _default)',
+    'a request that raises is not accepted: InvalidInputError is judged as a '
+    'capacity decision (a fitting request must not be refused); an '
+    'exception for a partition or reservation that does not exist is only '
+    'counted (rejected:<Type>.<context>) and must leave the store '
+    'unchanged; any other exception while partition and reservation exist '
+    'is c19.service-failure.<Type>; the refusal of a null-partition request '
+    'is not judged',
+    'trait lists hold no duplicates (LDAP attribute values are sets); '
     'partitions are not reconfigured inside a case',
     'an update never sends an empty trait list for a reservation that '
     'has traits (LdapObject.update skips empty lists, so the stored '
     'traits would stay while the reply shows none)',
 ]
-TRUSTED = ['pbt/reservation.py (FakeLdap, Model)']
+TRUSTED = ['pbt/reservation.py (FakeConnection, Model)']
 BUDGET = {'quick': 8000, 'thorough': 128000}
 
 _API = {}
